@@ -7,6 +7,7 @@ import (
 	"os"
 	"strconv"
 	"strings"
+	"time"
 
 	"verif/harness/sim"
 )
@@ -129,6 +130,9 @@ func follow(args []string) {
 	pruning := fs.String("pruning", "", "pruning")
 	db := fs.String("db", "", "db backend")
 	fs.Parse(args)
+	if os.Getenv("VERIF_CLOCK_SKEW_SEC") != "" {
+		fmt.Printf("WALLCLOCK %d\n", time.Now().Unix()) // lets the leader see that this replica's clock really is shifted
+	}
 	if err := sim.Follow(*file, sim.AppOpts{MinGasPrice: *mingas, IAVLCache: *iavl, Pruning: *pruning}, *db); err != nil {
 		fmt.Fprintln(os.Stderr, "follow:", err)
 		os.Exit(1)
@@ -145,6 +149,9 @@ func det(args []string) {
 	out := fs.String("out", "", "output jsonl")
 	fs.Parse(args)
 	self, _ := os.Executable()
+	if _, err := os.Stat(self + "-skew"); err == nil {
+		sim.SkewSelf = self + "-skew"
+	}
 	race := ""
 	if _, err := os.Stat(self + "-race"); err == nil {
 		race = self + "-race"
